@@ -14,7 +14,7 @@ RULE = ("Generated trees as in C04 plus float timestamps, with every choice of m
         "[tree] and [variant-*] sections of the same file. Metamorphic part: only the compatibility sections are kept and "
         "loaded as a pre-productmd file; name, version, arch, timestamp, main variant and its packages/repository must "
         "match the description. Non-trivial = >= 2 top-level variants or explicit main variant or src tree or float "
-        "timestamp; distinct = SHA-1 of the description. The same object is dumped again with other choices of main variant: each file follows its own request only. [general] of a tree that was changed after its first dump (one top-level variant replaced, same count) is compared with the reference of the changed description.")
+        "timestamp; distinct = SHA-1 of the description. The same object is dumped again with other choices of main variant: each file follows its own request only. [general] of a tree that was changed after its first dump (one top-level variant replaced, same count) is compared with the reference of the changed description. Sub-check id-keyed-top-level: trees whose dashed top-level variants are held under their id (the class of KF-C04): what [general] says about the main variant and its paths follows the name it was requested or chosen by.")
 ASSUMPTIONS = ["stdlib configparser.RawConfigParser is a correct, independent INI reader",
                "family names that trigger the documented RHEL/Fedora/CentOS heuristics and versions containing '-'/'_' are kept out of the metamorphic part only"]
 FLOORS = {"general": 400, "general:src-tree": 60, "general:explicit-main": 100, "general:float-timestamp": 60, "legacy-view": 150}
@@ -89,6 +89,25 @@ def general_case(case):
     return {"nontrivial": len(desc["variants"]) >= 2 or main is not None or src or isinstance(desc["tree"]["build_timestamp"], float), "labels": labels}
 
 
+def id_keyed_case(case):
+    """trees whose dashed top-level variants were added with the plain call of the docstrings and are therefore held under their
+    ID (the class of known finding KF-C04, which is about the second dump; what [general] says about the MAIN variant is
+    well defined there too: the name it was requested or chosen by, and that variant's paths)"""
+    desc = dict(case["desc"], top_level_keys="id")
+    ids = sorted(n["id"] for n in desc["variants"])
+    if len(set(ids)) < len(ids) or all(n["id"] == n["uid"] for n in desc["variants"]):
+        return {"nontrivial": False, "labels": ["no-dashed-top-level"]}
+    obj = must("build", tim.build_ti, desc, case.get("plan", 0))
+    for main in [None] + ids:
+        text = must("dump-valid-tree", tim.dump_text, obj, main)
+        g = must("stdlib-read", tim.read_ini, text).get("general", {})
+        want = tim.expected_general(desc, main)
+        for key in ("variant", "packagedir", "repository", "family", "version", "name", "arch", "platforms", "timestamp"):
+            check(g.get(key) == want.get(key), "general-differs-from-reference", lambda: "top-level variants held under their ids, main_variant=%r: [general] %s = %r, reference says %r" % (
+                main, key, g.get(key), want.get(key)))
+    return {"nontrivial": True, "labels": ["id-keyed-dashed-top-level"]}
+
+
 COMPAT = ("general", "stage2", "checksums")
 
 
@@ -158,6 +177,7 @@ def legacy_case(case):
 def run(ctx):
     ctx.forall("general", general_strategy, general_case, ctx.n(1600, 48000))
     ctx.forall("legacy-view", legacy_strategy, legacy_case, ctx.n(800, 24000))
+    ctx.forall("id-keyed-top-level", general_strategy, id_keyed_case, ctx.n(800, 16000))
 
 
-REPLAY = {"general": general_case, "legacy-view": legacy_case}
+REPLAY = {"id-keyed-top-level": id_keyed_case, "general": general_case, "legacy-view": legacy_case}
